@@ -798,7 +798,12 @@ def case_random(rng):
     n = rng.randint(1, 12)
     notes, info = gen_notes(rng, n, allow_n=(w != "o"))
     form = rng.choice(["%s.Random=%d ", "%s.Random(%d) ", "%s.Random = %d "])
-    src = track_prefix(rng) + "r " + (form % (w, r)) + notes
+    # a second width of a DIFFERENT parameter and magnitude, set at the same time: each parameter keeps its own width
+    w2, r2 = None, 0
+    if rng.random() < 0.5:
+        w2 = rng.choice([x for x in "vqt" if x != w])
+        r2 = rng.choice([60, 80, 100]) if r <= 10 else rng.choice([1, 2])
+    src = track_prefix(rng) + "r " + (form % (w, r)) + ((form % (w2, r2)) if w2 else "") + notes
     base_v, base_q = 64, 50
     if w == "v":
         src = src.replace("r ", "r v%d " % base_v, 1)
@@ -822,7 +827,7 @@ def case_random(rng):
                 fails.append(("note %d gate moved by more than r/2" % i, dur, (gate(TB, base_q), r)))
             if w == "t" and abs(st - pos) > h:
                 fails.append(("note %d start moved by more than r/2" % i, st, (pos, r)))
-            if w != "t" and st != pos:
+            if w != "t" and abs(st - pos) > (r2 // 2 if w2 == "t" else 0):
                 fails.append(("note %d start tick" % i, st, pos))
             if w == "o" and ((key - want_key) % 12 != 0 or abs(key - want_key) // 12 > h):
                 fails.append(("note %d octave moved by more than r/2" % i, key, (want_key, r)))
